@@ -25,6 +25,9 @@
 #undef pthread_mutex_lock
 #undef pthread_mutex_unlock
 #undef pthread_mutex_trylock
+#undef pthread_cond_wait
+#undef pthread_cond_broadcast
+#undef pthread_cond_signal
 #undef syscall
 #undef poll
 #undef usleep
@@ -41,7 +44,7 @@ struct thr {
 	struct sbent buf[MAXBUF]; int nbuf;
 	void (*fn)(int); void *(*pfn)(void *); void *parg; int want_join;
 	int needs_empty;          /* pending action is enabled only on an empty buffer */
-	pthread_mutex_t *want_mutex; int32_t *want_futex; int woken; int wake_reason;
+	pthread_mutex_t *want_mutex; int32_t *want_futex; int woken; int wake_reason; pthread_cond_t *want_cond;
 	int sig_pending; long steps; long rets;
 } T[MAXT];
 static struct { pthread_mutex_t *m; int owner; } MX[128]; static int nmx;
@@ -50,7 +53,7 @@ static int NT;
 static sem_t ctl, born;
 static __thread int me = -1;
 static __thread int noyield;
-int vs_tso = 1, vs_strict = 1;
+int vs_tso = 1, vs_strict = 1; long vs_step_limit = 100000;
 static void (*sig_handler)(int);
 int vs_self(void){ return me; }
 long vs_steps(int t){ return T[t].steps; }
@@ -170,6 +173,17 @@ int vh_mutex_unlock(pthread_mutex_t *m){
 	if(noyield){ MX[i].owner=-1; return 0; }
 	yield_point(1); MX[i].owner=-1;
 	char l[64]; vs_ploc(l,m); printf("%d unlock %s\n", me, l); return 0; }
+/* condition variables: wait = release the mutex and block until a broadcast (or a spurious wake-up choice), then re-acquire */
+int vh_cond_wait(pthread_cond_t *c, pthread_mutex_t *m){
+	if(me<0) return 0;
+	int i=mx_idx(m); char l[64]; vs_ploc(l,c);
+	yield_point(1); MX[i].owner=-1; printf("%d cond_wait %s\n", me, l);
+	T[me].want_cond=c; T[me].woken=0; yield_point(0); T[me].want_cond=0;
+	T[me].want_mutex=m; yield_point(1); T[me].want_mutex=0; MX[i].owner=me; printf("%d cond_woken %s\n", me, l); return 0; }
+int vh_cond_broadcast(pthread_cond_t *c){
+	if(me<0) return 0;
+	yield_point(1); int n=0; for(int t=0;t<NT;t++) if(T[t].want_cond==c && !T[t].woken){ T[t].woken=1; n++; }
+	char l[64]; vs_ploc(l,c); printf("%d cond_broadcast %s -> %d\n", me, l, n); return 0; }
 int vs_membarrier_available = 1;
 int vs_futex_enosys = 0;
 long vh_syscall(long nr, ...){
@@ -202,6 +216,7 @@ static int enabled(int t){
 	if(T[t].needs_empty && T[t].nbuf) return 0;
 	if(T[t].want_mutex && MX[mx_idx(T[t].want_mutex)].owner!=-1) return 0;
 	if(T[t].want_futex && !T[t].woken) return 0;
+	if(T[t].want_cond && !T[t].woken) return 0;
 	if(T[t].want_join>=0 && T[T[t].want_join].alive) return 0;
 	return 1; }
 static void *tmain(void *arg){ int t=(int)(long)arg; me=t;
@@ -228,7 +243,7 @@ void vs_run(const char *sched){
 		int alive=0; for(int t=0;t<NT;t++) alive+=T[t].alive+T[t].nbuf; if(!alive) break;
 		int c; if(*p) c=*p++; else { int t=rr++%NT; if(T[t].nbuf) c='a'+t; else c='0'+t; }
 		if(c>='a'&&c<'a'+NT){ int t=c-'a'; if(T[t].nbuf){ char l[64], v[64]; vs_ploc(l,T[t].buf[0].addr); pval(v,T[t].buf[0].v,T[t].buf[0].sz); commit_one(t); printf("%d flush %s v=%s\n", t, l, v);} continue; }
-		if(c>='A'&&c<'A'+NT){ int t=c-'A'; if(T[t].want_futex&&!T[t].woken){ T[t].woken=1; T[t].wake_reason=1; printf("%d spurious\n",t);} continue; }
+		if(c>='A'&&c<'A'+NT){ int t=c-'A'; if((T[t].want_futex||T[t].want_cond)&&!T[t].woken){ T[t].woken=1; T[t].wake_reason=1; printf("%d spurious\n",t);} continue; }
 		if(c=='!'){ if(*p){ int t=*p++-'0'; if(t>=0&&t<NT&&T[t].want_futex&&!T[t].woken){ T[t].woken=1; T[t].wake_reason=2; } } continue; }
 		if(c=='^'){ if(*p){ int t=*p++-'0'; if(t>=0&&t<NT&&T[t].alive&&sig_handler&&!T[t].want_futex&&T[t].want_join<0){ T[t].sig_pending=1; sem_post(&T[t].go); sem_wait(&ctl);} } continue; }
 		if(c=='>'){ /* run thread t until it completes its current operation (next ret event), flushing its own buffer when needed */
@@ -236,7 +251,7 @@ void vs_run(const char *sched){
 				while(T[t].alive && T[t].rets==r0 && guard++<5000){
 					if(T[t].needs_empty && T[t].nbuf){ char l[64], v[64]; vs_ploc(l,T[t].buf[0].addr); pval(v,T[t].buf[0].v,T[t].buf[0].sz); commit_one(t); printf("%d flush %s v=%s\n", t, l, v); continue; }
 					if(!enabled(t)) break;
-					sem_post(&T[t].go); sem_wait(&ctl); if(++steps>400000){ printf("STEP LIMIT\n"); fflush(stdout); _exit(3);} } } }
+					sem_post(&T[t].go); sem_wait(&ctl); if(++steps>vs_step_limit){ printf("STEP LIMIT\n"); fflush(stdout); _exit(3);} } } }
 			continue; }
 		int t=c-'0';
 		if(t<0||t>=NT||!enabled(t)) {
@@ -245,6 +260,6 @@ void vs_run(const char *sched){
 					if(app){ printf("DEADLOCK\n"); fflush(stdout); _exit(2);} else { printf("QUIESCENT\n"); fflush(stdout); return; } } }
 			continue; }
 		sem_post(&T[t].go); sem_wait(&ctl);
-		if(++steps>400000){ printf("STEP LIMIT\n"); fflush(stdout); _exit(3);} }
+		if(++steps>vs_step_limit){ printf("STEP LIMIT\n"); fflush(stdout); _exit(3);} }
 	fflush(stdout);
 }
